@@ -71,8 +71,12 @@ class DType(Record):
 
 class Checker(Record):
     def __init__(self, t):
-        self.__name__ = f"check_{t.name}"
+        # every checker asks for the same name: the name database must keep them apart
+        self.__name__ = "check"
         self.t = t
+
+    def __repr__(self):
+        return f"<check of {self.t.name}>"
 
 
 class Val(Record):
@@ -135,6 +139,8 @@ CONFIGS = {
     "two-predicate-classes": dict(args=[0], handlers=[{0: _t("g0", GEN)}, {0: _t("h0", GEN2)}], slf=False, next="next"),
     "shared-type": dict(args=[0, 1], handlers=[{0: _t("g0", GEN), 1: _t("g1", GEN)}, {0: _t("g0", GEN), 1: _t("g2", GEN)}], slf=False, next="next"),
     "keyword-position": dict(args=[0, "kw"], handlers=[{0: S, "kw": _t("g0", GEN)}, {0: S, "kw": _t("g1", GEN)}, {0: S, "kw": _t("g2", GEN)}], slf=True, next="next"),
+    "declared-position-not-supplied": dict(args=[0], handlers=[{0: _t("g0", GEN), 1: _t("g9", GEN)}, {0: _t("g1", GEN)}], slf=False, next="next"),
+    "three-constants-one-name": dict(args=[0], handlers=[{0: _t("g0", GEN)}, {0: _t("g1", GEN)}, {0: _t("g2", GEN)}, {0: _t("g3", GEN)}], slf=False, next="next"),
     "exclusive-then-predicates": dict(args=[0, 1], handlers=[{0: _t("e0", EXC), 1: _t("g0", GEN)}, {0: _t("e1", EXC), 1: _t("g1", GEN)}], slf=False, next="next"),
     "predicates-then-exclusive": dict(args=[0, 1], handlers=[{0: _t("g0", GEN), 1: _t("e0", EXC)}, {0: _t("g1", GEN), 1: _t("e1", EXC)}], slf=False, next="next"),
 }
@@ -170,9 +176,12 @@ class Generated:
             tok = Handler(f"h{i}")
             tys = {k: mk(h[k]) for k in cfg["args"]}
             self.handlers.append((tok, tys))
+            self.declared = getattr(self, "declared", {})
+            self.declared[tok] = {k: mk(v) for k, v in h.items()}
         self.types = types
         call_tup = tuple(DType(f"call{k}", STATIC) if isinstance(k, int) else (k, DType(f"call_{k}", STATIC)) for k in cfg["args"])
-        htup = [(tok, tuple(tys[k] if isinstance(k, int) else (k, tys[k]) for k in cfg["args"])) for tok, tys in self.handlers]
+        # a handler's own signature may declare further (optional, not supplied) positions after the supplied ones
+        htup = [(tok, tuple(t if isinstance(k, int) else (k, t) for k, t in sorted(self.declared[tok].items(), key=lambda kv: (not isinstance(kv[0], int), str(kv[0]))))) for tok, tys in self.handlers]
         self.slf = "self, " if cfg["slf"] else ""
         nxt = {"next": (NEXT, 3), None: None, "none-first": (None, 0)}[cfg["next"]]
         self.fallthrough_is_next = cfg["next"] == "next"
